@@ -1,0 +1,18 @@
+//! Hooks for the external verification harness (cargo feature `verif-hooks`, off by default).
+//!
+//! The only hook forces the builder's large-file mode (stripped cpio entries, 64-bit size tags),
+//! which is otherwise reachable only with more than 4 GiB of file content.
+use std::cell::Cell;
+
+thread_local! {
+    static FORCE_LARGE_FILES: Cell<bool> = const { Cell::new(false) };
+}
+
+/// Make every build on the current thread use the large-file payload format.
+pub fn set_force_large_files(on: bool) {
+    FORCE_LARGE_FILES.with(|c| c.set(on));
+}
+
+pub(crate) fn force_large_files() -> bool {
+    FORCE_LARGE_FILES.with(|c| c.get())
+}
